@@ -436,7 +436,22 @@ def add_tag_newline_handling(
 
         # Check if there are any tags in the text - only apply block content
         # heuristics when tags are present to avoid changing normal markdown behavior
-        has_tags = any(line_ends_with_tag(line) or line_starts_with_tag(line) for line in lines)
+        # A closing delimiter at the end of a line ends a tag only if that tag was opened
+        # somewhere (`a b}}` or `see x -->` at a line end is plain text, and its newline is
+        # ordinary layout).
+        tag_ends = {end for _start, end in find_template_tags_outside_code(text)}
+        line_end_offsets: list[int] = []
+        offset = 0
+        for line in lines:
+            line_end_offsets.append(offset + len(line.rstrip()))
+            offset += len(line) + 1
+
+        def ends_with_tag(index: int) -> bool:
+            return line_ends_with_tag(lines[index]) and line_end_offsets[index] in tag_ends
+
+        has_tags = any(
+            ends_with_tag(i) or line_starts_with_tag(line) for i, line in enumerate(lines)
+        )
 
         # Group lines into segments that should be wrapped together
         # A new segment starts when:
@@ -445,11 +460,12 @@ def add_tag_newline_handling(
         # - (Only if tags present) The current line is block content (table/list)
         # - (Only if tags present) The previous line is block content
         segments: list[str] = []
+        segment_last_line: list[int] = []  # Index in `lines` of each segment's last line
         current_segment_lines: list[str] = []
 
         for i, line in enumerate(lines):
             is_first_line = i == 0
-            prev_ends_with_tag = not is_first_line and line_ends_with_tag(lines[i - 1])
+            prev_ends_with_tag = not is_first_line and ends_with_tag(i - 1)
             # Only treat unindented tag lines as segment boundaries.
             # Indented tag lines are continuations (e.g., list item continuations).
             curr_starts_with_tag = _is_unindented_tag_line(line)
@@ -462,6 +478,7 @@ def add_tag_newline_handling(
             if prev_ends_with_tag or curr_starts_with_tag or curr_is_block or prev_is_block:
                 if current_segment_lines:
                     segments.append("\n".join(current_segment_lines))
+                    segment_last_line.append(i - 1)
                     current_segment_lines = []
 
             current_segment_lines.append(line)
@@ -469,6 +486,7 @@ def add_tag_newline_handling(
         # Don't forget the last segment
         if current_segment_lines:
             segments.append("\n".join(current_segment_lines))
+            segment_last_line.append(len(lines) - 1)
 
         # If we only have one segment, no tag boundaries were found
         if len(segments) == 1:
@@ -499,9 +517,7 @@ def add_tag_newline_handling(
             # Check if we're transitioning to/from block content
             prev_is_block = any(line_is_block_content(line) for line in prev_segment.split("\n"))
             curr_is_block = any(line_is_block_content(line) for line in curr_segment.split("\n"))
-            prev_is_tag = (
-                line_ends_with_tag(prev_segment.split("\n")[-1]) if prev_segment else False
-            )
+            prev_is_tag = ends_with_tag(segment_last_line[i - 1]) if prev_segment else False
             # Only treat unindented tag lines as "tag" for blank line insertion.
             # Indented tag lines are continuations and shouldn't trigger blank lines.
             curr_is_tag = (
